@@ -68,9 +68,10 @@ const (
 	KFile
 	KHarness
 	KChoice
+	KAtomic
 )
 
-var kindNames = [...]string{"start", "lock", "rlock", "wlock-announce", "wlock", "wg-wait", "cond", "file", "harness", "choice"}
+var kindNames = [...]string{"start", "lock", "rlock", "wlock-announce", "wlock", "wg-wait", "cond", "file", "harness", "choice", "atomic"}
 
 func (k Kind) String() string { return kindNames[k] }
 
